@@ -6,6 +6,11 @@ using MG = Matcher<TestGenerator>;
 extern "C" {
 void mk_table_gen(std::vector<MG>* out) { new (out) std::vector<MG>(GetDecodeTable<TestGenerator>()); }
 void gen_state(Config* c, State* out) { *out = c->GenerateRandomState(); }
+void gen_cfg_layout(unsigned long* out) {
+    Config* c = nullptr;
+    out[0] = (unsigned long)&c->enable; out[1] = (unsigned long)&c->lock_page; out[2] = (unsigned long)&c->lock_r7; out[3] = (unsigned long)&c->r;
+    out[4] = (unsigned long)&c->ar; out[5] = (unsigned long)&c->arp; out[6] = (unsigned long)&c->expand; out[7] = sizeof(Config); out[8] = sizeof(RegConfig); out[9] = sizeof(ExpandConfig);
+}
 void gen_callm(const MG* m, TestGenerator* g, u16 o, Config* out) { *out = m->call(*g, o, 0); }
 #ifdef NATIVE_TWIN
 int gen_cfg_of(u16 opcode, Config* out) { TestGenerator g; *out = Decode<TestGenerator>(opcode).call(g, opcode, 0); return out->enable; }
